@@ -96,6 +96,14 @@ var c08Expr = hx.Define("c08.expr", func(c *c08ExprCase, s *hx.Sub) *hx.Violatio
 		if lax.OK() && str.OK() && lax.Out != str.Out {
 			return hx.V("c08:strict-differs", "%s renders %q, in strict-variables mode %q", src, lax.Out, str.Out)
 		}
+		if lax.OK() && str.Failed() {
+			// strict mode may only object to a final value that is nil: ask the implementation itself
+			probe := hx.SourceSp([]*hx.N{hx.Assign("v_", c.E)}, nil) + "{% if v_ == nil %}NIL{% else %}VALUE{% endif %}"
+			pr := hx.RenderWith(newEngine(nil), probe, c.Binds.Realise())
+			if pr.OK() && pr.Out == "VALUE" {
+				return hx.V("c08:strict-rejects-value", "%s fails in strict-variables mode (%v) although its final value is not nil (it renders %q)", src, str.Err, lax.Out)
+			}
+		}
 		if lax.Failed() && !str.Failed() {
 			return hx.V("c08:strict-differs", "%s fails (%v) but succeeds in strict-variables mode", src, lax.Err)
 		}
